@@ -675,25 +675,26 @@ def run_isolating(ctx, s, cases, env, progress, what):
     return results, "\n".join(errs)
 
 
+# entry points whose string argument is parsed as a C type by parse_c_type.c (through _ffi_type): the property's predicate
+# applies to them in full.  For the others (names looked up in lib / integer_const / addressof, offsetof()'s field names,
+# getctype()'s replace_with, from_buffer) the property states nothing about the exception class: only a dying interpreter
+# or a sanitizer report while the string is handled is a violation; their outcomes are histogram observations.
+FULL_PREDICATE_APIS = ("typeof", "new", "cast", "sizeof", "alignof", "getctype", "offsetof", "callback")
+
+
 def capi_verdict(c, r):
-    """None if acceptable, else (description, key).  The property's predicate for every entry point of a compiled FFI
-    that takes a type string: a result, ffi.error, TypeError or ValueError (UnicodeEncodeError is a ValueError).  Name
-    look-ups (lib attributes, integer_const, addressof(lib, name)) report a missing name as AttributeError, offsetof()
-    reports a missing field as KeyError: documented behaviour of those entry points."""
+    """None if acceptable, else (description, key).  Type-string entry points of a compiled FFI: a result, ffi.error,
+    TypeError or ValueError (UnicodeEncodeError is a ValueError); NotImplementedError for valid-but-unsupported C (as the
+    property's first sentence allows for the in-line front end: e.g. callback('void(*)(int, ...)')); offsetof() reports a
+    missing field as KeyError (documented).  Entry points that do not parse a type string: never judged by class."""
     exc = r["exc"]
-    if exc is None or exc in ALLOWED_C:
+    if c["api"] not in FULL_PREDICATE_APIS:
         return None
-    if exc == "AttributeError" and c["api"] in ("libattr", "libhas", "integer_const", "addressof"):
+    if exc is None or exc in ALLOWED_C or exc == "NotImplementedError":
         return None
-    if exc == "KeyError" and c["api"] in ("offsetof", "offsetof2", "offsetof3"):
+    if exc == "KeyError" and c["api"] == "offsetof":
         return None
-    if exc == "NotImplementedError" and c["api"] == "callback":      # valid but unsupported: callback type with '...'
-        return None
-    key = ctype_key(r)
-    if (exc == "SystemError" and c["api"] in ("libattr", "libhas") and "returned a result with an exception set" in (r.get("msg") or "")
-            and not utf8_ok(capi_text(c))):
-        key = "lib_getattr_unencodable_name"
-    return "%s on a compiled FFI raises %s: %s" % (capi_label(c), r.get("cls") or exc, r.get("msg")), key
+    return "%s on a compiled FFI raises %s: %s" % (capi_label(c), r.get("cls") or exc, r.get("msg")), ctype_key(r)
 
 
 def utf8_ok(t):
@@ -904,8 +905,11 @@ def run(ctx):
         "(sanitizer-instrumented back end, PYTHONMALLOC=debug child, complexity-limit stream)",
         "C30/Gen.v regenerated from cparser.py by the shape matcher c30_regen.py (fail closed: a changed shape is a broken "
         "obligation); the prefix of the pattern _r_extern_python and Python's \\s / \\w tables are hand models tied by the extpy stream",
-        "capi stream: AttributeError from lib/integer_const/addressof name look-ups and KeyError from offsetof() for a missing "
-        "field are the documented outcomes of those entry points and are accepted next to ffi.error/TypeError/ValueError",
+        "capi stream: the exception class is judged only for the entry points that parse a type string (typeof/new/cast/sizeof/"
+        "alignof/getctype/offsetof/callback: ffi.error/TypeError/ValueError, NotImplementedError for valid-but-unsupported C, KeyError "
+        "for offsetof's missing field); for name look-ups (lib attributes, integer_const, addressof), offsetof field names, "
+        "getctype's replace_with and from_buffer only interpreter death / a sanitizer report is a violation, other outcomes are "
+        "observations (histogram capi_outcome)",
         "reading: TypeError/ValueError raised by the back end while FFI.typeof() builds a well-formed but invalid type are "
         "accepted; exceptions raised inside pycparser count as violations of cdef()/typeof()"]
     evaluate(ctx, generate(ctx))
@@ -934,5 +938,9 @@ MANIFEST = dict(
          "lib_obj.c name look-ups, realize_c_type.c.",
     note="Trusted: Coq kernel; translators c09_regen.py and c30_regen.py (shape matcher); hand models (literal scanner, "
          "_r_int_literal, the prefix of _r_extern_python, \\s/\\w tables) tied by differential tests; ASan/UBSan as the detector of "
-         "out-of-bounds reads; process death attributed by re-running the single input; pycparser not modelled.",
+         "out-of-bounds reads; process death attributed by re-running the single input; pycparser not modelled. The capi stream "
+         "also drives entry points ADJACENT to the property (lib attribute look-ups, integer_const, addressof(lib, name), offsetof "
+         "field names, getctype's replace_with, from_buffer): for those only interpreter death or a sanitizer report is a "
+         "violation, exception classes are recorded as observations (the fixed SystemError of getattr(lib, '\\udc80'), 8e09684, "
+         "was found there).",
     design_ref="DESIGN.md §4 C30")
